@@ -66,6 +66,15 @@ class Prop(common.PropertyCheck):
             yield {'k': 'file', 'far': True, 'spec': {'version': ver, 'delim': '/', 'datatype': 'F' if i == 2 else 'I', 'byteord': '1,2,3,4', 'widths': ws,
                                                       'ranges': [1 << w for w in ws] if i != 2 else [1024, 1024], 'events': ev, 'placement': 'header', 'text_offsets_too': too,
                                                       'end_conv': 'last', 'pad_text': 0, 'pad_data': pad, 'pad_after': 0, 'order': 'TDA'}}
+        # the DATA segment stored before the TEXT segment (HEADER, DATA, TEXT[, ANALYSIS]); TEXT beginning right after the last byte of DATA
+        for i in range(self.budget(28, 280)):
+            spec = fcsgen.gen_spec(rng, family=fcsgen.FAMILIES[i % 7], datatype=['I', 'F', 'D', 'I'][i % 4])
+            if spec.get('malformed'):
+                continue
+            spec.update(order=['DTA', 'DT', 'DAT'][i % 3], pad_data=[0, 3][i % 2], pad_text=[0, 0, 5][i % 3], placement=['header', 'text'][(i // 2) % 2] if spec['version'] != 'FCS2.0' else 'header',
+                        text_offsets_too=True)
+            spec.pop('stext', None)
+            yield {'k': 'file', 'spec': spec}
         # a parameter named like the clock channel: masked to its declared range like every other parameter
         for i in range(self.budget(30, 300)):
             spec = fcsgen.gen_spec(rng, datatype='I', family=fcsgen.FAMILIES[i % 7])
